@@ -10,6 +10,7 @@ this code base (F19).  What is decided, in the OpenMP configuration with sequent
      sequentially (same oracles as C01/C02);
  (c) the body of the `parallel for` over tables (mzd_make_table) writes only its own table and index
      array (dynamic frame check), so iterations are independent."""
+REPLAYABLE = False  # stubs / instrumented program: counterexamples are reported from the solver trace, not re-linked against gcc
 BOUNDS = {
  "quick": "(a) m,k,n symbolic in [1,1100], cutoff any multiple of 64 in [64,576], both routes; (b) M4RM / M4RI / PLUQ queries of the C01/C02 grids in configuration omp; (c) mzd_make_table k in {2,3} frame check",
  "thorough": "(b) larger subset",
